@@ -1,6 +1,8 @@
 package checks
 
 import (
+	"math/big"
+	"encoding/asn1"
 	"sync/atomic"
 	"bytes"
 	"encoding/binary"
@@ -32,6 +34,7 @@ import (
 	"verif/harness/lds"
 	"verif/harness/link"
 	"verif/harness/sim"
+	"verif/harness/perso"
 	"verif/harness/pki"
 )
 
@@ -976,6 +979,7 @@ func C12(c *core.Ctx) {
 	// ---- hostile chips ----
 	c12HostileChip(c)
 	c12AuthenticatedHostileChip(c)
+	c12CraftedRepresentatives(c)
 	// ---- signatures whose scalars lie between the orders of sibling curves (the curve fall-back of cms) ----
 	c12SiblingCurves(c)
 	if len(jobs) > 0 {
@@ -1681,3 +1685,64 @@ func c12AuthenticatedHostileChip(c *core.Ctx) {
 	}
 	c.Extra["authenticated_hostile_responses"] = len(jobs)
 }
+
+// c12CraftedRepresentatives: whoever writes an evidence bundle (or personalises a chip) chooses the DG15 key TOGETHER with
+// the signature, so the recovered ISO 9796-2 message representative can be ANY octet string: every short string over the
+// octets that steer the decoder (header 6A / 4A, trailers BC / CC, hash identifiers, 00, 01) is "signed" with the private
+// key of a harness key and verified; so are representatives just around the minimum sizes.
+func c12CraftedRepresentatives(c *core.Ctx) {
+	p, err := perso.New(perso.Options{Seed: c.Seed, AA: &perso.AASpec{Type: "rsa", Bits: 1024, Hash: "sha1"}, IssuerTrusted: true, OpenChip: true, BAC: true,
+		Transport: chipsim.Transport{ExtendedLength: true}})
+	if err != nil || p.AAKey == nil {
+		core.Infra("C12: perso (rsa): %v", err)
+	}
+	dg15, err := document.NewDG15(p.AppFiles[0x010F])
+	if err != nil {
+		core.Infra("C12: NewDG15: %v", err)
+	}
+	n, d := new(big.Int).SetBytes(p.AAKey.N), new(big.Int).SetBytes(p.AAKey.D)
+	k := len(p.AAKey.N)
+	alpha := []byte{0x6A, 0x4A, 0xBC, 0xCC, 0x33, 0x34, 0x38, 0x00, 0x01}
+	var reps [][]byte
+	var gen func(prefix []byte, left int)
+	gen = func(prefix []byte, left int) {
+		if len(prefix) > 0 {
+			reps = append(reps, append([]byte{}, prefix...))
+		}
+		if left == 0 {
+			return
+		}
+		for _, a := range alpha {
+			gen(append(prefix, a), left-1)
+		}
+	}
+	gen(nil, 3)
+	for _, tail := range [][]byte{{0xBC}, {0x34, 0xCC}, {0x38, 0xCC}, {0xCC}} {
+		for body := 0; body <= 22; body++ {
+			reps = append(reps, append(append([]byte{0x6A}, bytes.Repeat([]byte{0x11}, body)...), tail...))
+		}
+	}
+	challenge := []byte{1, 2, 3, 4, 5, 6, 7, 8}
+	outs := make([]hostileOutcome, len(reps))
+	core.ParallelFor(len(reps), func(i int) {
+		f := new(big.Int).SetBytes(reps[i])
+		sig := new(big.Int).Exp(f, d, n).FillBytes(make([]byte, k))
+		outs[i] = runHostile(func() error {
+			_, err := activeauth.ValidateActiveAuthSignature(dg15, sig, challenge)
+			if _, e2 := activeauth.VerifyEvidence(&document.Document{Mf: document.MasterFile{Lds1: document.LDS1{Dg15: dg15}}}, &document.ActiveAuthEvidence{Algorithm: oidRsaEncryption, Nonce: challenge, Signature: sig}); e2 != nil && err == nil {
+				err = e2
+			}
+			return err
+		})
+	})
+	for i, o := range outs {
+		c.Case(fmt.Sprintf("crafted-representative/%x", reps[i]), true)
+		if o.kind == "panic" || o.kind == "timeout" {
+			c.Violation("C12:"+o.kind+":activeauth:"+panicSite(o.text), fmt.Sprintf("Active Authentication verification: %s on a signature whose recovered representative is %x: %s", o.kind, reps[i], firstLine(o.text)), map[string]any{"representative": core.Hex(reps[i])})
+			return
+		}
+	}
+	c.Extra["crafted_rsa_representatives"] = len(reps)
+}
+
+var oidRsaEncryption = asn1.ObjectIdentifier{1, 2, 840, 113549, 1, 1, 1}
